@@ -287,6 +287,25 @@ def scan_forbidden(files) -> list[str]:
     return bad
 
 
+def lk_closure(start: Path) -> list[Path]:
+    """Files of the development that `start` depends on (through `From LK Require ...`), itself included."""
+    seen, todo = {}, [Path(start)]
+    while todo:
+        f = todo.pop()
+        if f in seen or not f.exists():
+            continue
+        seen[f] = True
+        body = strip_coq_comments(f.read_text())
+        for m in re.finditer(r"From\s+LK\s+Require\s+(?:Import\s+|Export\s+)?(.*?)\.(?=\s|$)", body, re.S):
+            for name in m.group(1).split():
+                todo.append(COQ / (name.replace(".", "/") + ".v"))
+        for m in re.finditer(r"(?<!LK\s)Require\s+(?:Import\s+|Export\s+)?(.*?)\.(?=\s|$)", body, re.S):
+            for name in m.group(1).split():
+                if name.startswith("LK."):
+                    todo.append(COQ / (name[3:].replace(".", "/") + ".v"))
+    return sorted(seen)
+
+
 def ensure_makefile():
     mk = COQ / "Makefile"
     proj = COQ / "_CoqProject"
